@@ -115,6 +115,50 @@ def first_type_arg(F, tnode):
     return None
 
 
+def _selector(rs, nargs):
+    """A branching helper that only ever returns one of its arguments (a hand-written min / max / clamp): (i, lower, upper) if
+    argument i is returned only on paths that decided `arg_j <= arg_i` for j in lower and `arg_i <= arg_j` for j in upper, and
+    every other return hands back one of those bounds.  The call then reads as min(max(arg_i, lower..), upper..)."""
+    def argno(t):
+        if isinstance(t, tuple) and t and t[0] == 'arg' and isinstance(t[1], int):
+            return t[1]
+        if isinstance(t, tuple) and t and t[0] == 'in' and len(t[1]) == 1 and isinstance(t[1][0], int):
+            return t[1][0]
+        return None
+    per = {}
+    for r in rs:
+        if any(e['kind'] in ('write', 'write_ref') or (e['kind'] == 'call' and e.get('uid') is not None) for e in r.events):
+            return None
+        k = argno(r.ret)
+        if k is None or not (1 <= k <= nargs):
+            return None
+        lo, up = set(), set()
+        for t, v, _ in r.preds:
+            if not (isinstance(t, tuple) and t and t[0] == 'bin' and t[1] in ('Lt', 'Le', 'Gt', 'Ge')):
+                return None
+            a, c = argno(t[2]), argno(t[3])
+            if a is None or c is None:
+                return None
+            # normalise to "x <= y" (strictness does not matter for a bound)
+            le = (a, c) if ((t[1] in ('Lt', 'Le')) == bool(v)) else (c, a)
+            if le[0] == k:
+                up.add(le[1])
+            if le[1] == k:
+                lo.add(le[0])
+        if k in per:
+            per[k] = (per[k][0] & lo, per[k][1] & up)
+        else:
+            per[k] = (lo, up)
+    cand = sorted(k for k, (lo, up) in per.items() if lo or up)
+    if not cand:
+        return None
+    i = cand[0]
+    lo, up = per[i]
+    if any(k != i and k not in lo and k not in up for k in per):
+        return None
+    return i, sorted(lo), sorted(up)
+
+
 def inline_pure(F, t, depth=1, only=None):
     """One-level inlining of pure, single-path crate-local helpers inside a term (DESIGN §2: `support_size`,
     `is_whole`, ...).  `only`: optional predicate on the callee def path."""
@@ -130,6 +174,16 @@ def inline_pure(F, t, depth=1, only=None):
             return None
         _, pp = evaluate(b)
         rs = [p for p in pp or [] if p.end == 'return']
+        if len(rs) > 1 and len(rs) == len(pp or []):
+            sel = _selector(rs, len(n[2]))
+            if sel is not None:
+                i, lo, up = sel
+                out = n[2][i - 1]
+                for j in lo:
+                    out = ('call', 'core::cmp::Ord::max', (out, n[2][j - 1]), None)
+                for j in up:
+                    out = ('call', 'core::cmp::Ord::min', (out, n[2][j - 1]), None)
+                return out
         if len(rs) != 1 or any(e['kind'] == 'call' and e.get('uid') is not None for e in rs[0].events) or any(e['kind'] == 'write' for e in rs[0].events):
             return None
         args = n[2]
